@@ -1,128 +1,121 @@
 (* C11 — the invariant of the publisher/subscriber machine: what every client's view, index and
-   pending items have to do with the log of commits, under the environment assumptions
-   ([step_ok], [events_ok], [restore_ok], and [gapfree_ok] when the parameter [gf] is true). *)
+   pending items have to do with the log of commits, under the environment assumption [step_ok]. *)
 From Coq Require Import Sorted.
 From Verif Require Import Base.Prelude Stream.Model Stream.Amap Stream.Lookup.
 Local Open Scope N_scope.
 
-(* the part of the state the client invariants read, besides the client's own topic buffer *)
-Record hist := Hist { h_hi : N; h_log : list batch; h_base : amap; h_epoch : N; h_queue : list batch }.
+(* the part of the state the client invariants read, besides the client's own topic buffer;
+   h_lq = the queued batches of the current generation *)
+Record hist := Hist { h_hi : N; h_log : list batch; h_base : amap; h_epoch : N; h_lq : list batch }.
 
 Definition hist_of (st : state) : hist :=
-  Hist (st_hi st) (st_log st) (st_base st) (st_epoch st) (st_queue st).
+  Hist (st_hi st) (st_log st) (st_base st) (st_epoch st) (live_queue st).
 
 Definition ob_items (ob : option tbuf) : list item :=
   match ob with Some b => tb_items b | None => [] end.
 
-(* what a subscription positioned at [off] in its topic buffer will still be handed *)
+(* what a subscription positioned at [off] in its topic buffer has in front of it (before Next's filter) *)
 Definition tail (h : hist) (T : ts) (ob : option tbuf) (off : nat) : list item :=
-  skipn off (ob_items ob) ++ proj T (h_queue h).
+  skipn off (ob_items ob) ++ proj T (h_lq h).
 
-Section Inv.
-  Variable gf : bool.
+(* The T-items of the log are A ++ D; the view is the base with A applied; cidx separates A from D. *)
+Record core (h : hist) (T : ts) (view : amap) (cidx : N) (A D : list item) : Prop := {
+  co_split : proj T (h_log h) = A ++ D;
+  co_view : forall k, aget k view =
+                      if matches T k then aget k (apply (ievs A) (h_base h)) else None;
+  co_le : Forall (fun it => item_idx it <= cidx) A;
+  co_gt : Forall (fun it => cidx < item_idx it) D;
+  co_s : 1 <= cidx <= h_hi h
+}.
 
-  (* The T-items of the log are A ++ B1 ++ B2 ++ D.  The view was built from a snapshot that already
-     contained A ++ B1 ++ B2 (everything up to the snapshot's index s); B1 has since been re-applied
-     to it (the replay caused by subscribing in the commit/publish gap), B2 is still to be replayed,
-     D is what was committed after the snapshot.  Without a gap B1 = B2 = []. *)
-  Record core (h : hist) (T : ts) (view : amap) (cidx : N) (A B1 B2 D : list item) (s : N) : Prop := {
-    co_split : proj T (h_log h) = A ++ B1 ++ B2 ++ D;
-    co_view : forall k, aget k view =
-                        if matches T k
-                        then aget k (apply (ievs B1) (apply (ievs (A ++ B1 ++ B2)) (h_base h)))
-                        else None;
-    co_le : Forall (fun it => item_idx it <= s) (A ++ B1 ++ B2);
-    co_gt : Forall (fun it => s < item_idx it) D;
-    co_idx : cidx = lastidx B1 s;
-    co_s : 1 <= s <= h_hi h;
-    co_gf : gf = true -> B1 = [] /\ B2 = []
-  }.
+(* what a client's (view, index) mean: nothing yet; a state of the current store incarnation;
+   or a leftover of a replaced incarnation (whose index is below every index of the new log) *)
+Definition knows (h : hist) (r : N) (x : client) : Prop :=
+  c_idx x = 0 \/
+  (c_epoch x = h_epoch h /\ exists A D, core h (c_ts x) (c_view x) (c_idx x) A D) \/
+  (c_epoch x <> h_epoch h /\ c_idx x <= r).
 
-  (* what a client's (view, index) mean: nothing yet; a state of the current store incarnation;
-     or a leftover of a replaced incarnation (whose index is below every index of the new log) *)
-  Definition knows (h : hist) (r : N) (x : client) : Prop :=
-    c_idx x = 0 \/
-    (c_epoch x = h_epoch h /\
-     exists A B1 B2 D s, core h (c_ts x) (c_view x) (c_idx x) A B1 B2 D s) \/
-    (c_epoch x <> h_epoch h /\ c_idx x <= r).
+(* a snapshot (events [acc] already accumulated, items [rest] still to come, then EndOfSnapshot s)
+   positioned at [off] in the topic buffer: the snapshot contains A ++ B2; B2 was committed before
+   the snapshot was taken but is published after it (Next will skip it); D is what comes after *)
+Record snapok (h : hist) (T : ts) (ob : option tbuf) (acc : list ev) (rest : list item) (off : nat)
+       (A B2 D : list item) (s : N) : Prop := {
+  so_split : proj T (h_log h) = A ++ B2 ++ D;
+  so_rest : Forall is_iev rest;
+  so_view : forall k, aget k (apply (acc ++ ievs rest) []) =
+                      if matches T k then aget k (apply (ievs (A ++ B2)) (h_base h)) else None;
+  so_tail : tail h T ob off = B2 ++ D;
+  so_le : Forall (fun it => item_idx it <= s) (A ++ B2);
+  so_gt : Forall (fun it => s < item_idx it) D;
+  so_s : 1 <= s <= h_hi h
+}.
 
-  (* a snapshot (events [acc] already accumulated, items [rest] still to come, then EndOfSnapshot s)
-     positioned at [off] in the topic buffer *)
-  Record snapok (h : hist) (T : ts) (ob : option tbuf) (acc : list ev) (rest : list item) (off : nat)
-         (A B2 D : list item) (s : N) : Prop := {
-    so_split : proj T (h_log h) = A ++ B2 ++ D;
-    so_rest : Forall is_iev rest;
-    so_view : forall k, aget k (apply (acc ++ ievs rest) []) =
-                        if matches T k then aget k (apply (ievs (A ++ B2)) (h_base h)) else None;
-    so_tail : tail h T ob off = B2 ++ D;
-    so_le : Forall (fun it => item_idx it <= s) (A ++ B2);
-    so_gt : Forall (fun it => s < item_idx it) D;
-    so_s : 1 <= s <= h_hi h;
-    so_gf : gf = true -> B2 = []
-  }.
+Definition buf_live (ob : option tbuf) (off : nat) (id : option N) : Prop :=
+  exists tb, ob = Some tb /\ (off <= List.length (tb_items tb))%nat /\
+             match id with Some i => tb_id tb = i | None => True end.
 
-  Definition buf_live (ob : option tbuf) (off : nat) : Prop :=
-    exists tb, ob = Some tb /\ tb_old tb = false /\ (off <= List.length (tb_items tb))%nat.
+Definition subinv (h : hist) (ob : option tbuf) (x : client) (sb : sub) : Prop :=
+  buf_live ob (s_off sb) (Some (s_buf sb)) /\
+  ((s_pre sb = [] /\ (c_h x = HStream \/ c_h x = HResume) /\ c_epoch x = h_epoch h /\
+    s_snap sb <= c_idx x /\
+    exists A D R, core h (c_ts x) (c_view x) (c_idx x) A D /\
+                  tail h (c_ts x) ob (s_off sb) = R ++ D /\
+                  Forall (fun it => skipped (s_snap sb) it = true) R)
+   \/
+   (s_snap sb = 0 /\
+    exists acc rest A B2 D s,
+      ((c_h x = HSnap acc /\ s_pre sb = rest ++ [IEos s]) \/
+       (c_h x = HResume /\ acc = [] /\ s_pre sb = INstf :: rest ++ [IEos s])) /\
+      snapok h (c_ts x) ob acc rest (s_off sb) A B2 D s)).
 
-  Definition subinv (h : hist) (ob : option tbuf) (x : client) (sb : sub) : Prop :=
-    buf_live ob (s_off sb) /\
-    ((s_pre sb = [] /\ (c_h x = HStream \/ c_h x = HResume) /\ c_epoch x = h_epoch h /\
-      exists A B1 B2 D s, core h (c_ts x) (c_view x) (c_idx x) A B1 B2 D s /\
-                          tail h (c_ts x) ob (s_off sb) = B2 ++ D)
-     \/
-     (exists acc rest A B2 D s,
-         ((c_h x = HSnap acc /\ s_pre sb = rest ++ [IEos s]) \/
-          (c_h x = HResume /\ acc = [] /\ s_pre sb = INstf :: rest ++ [IEos s])) /\
-         snapok h (c_ts x) ob acc rest (s_off sb) A B2 D s)).
+Definition cinv (h : hist) (ob : option tbuf) (r : N) (x : client) : Prop :=
+  c_idx x <= h_hi h /\ c_epoch x <= h_epoch h /\
+  (c_idx x = 0 -> meq (c_view x) []) /\
+  (forall acc, c_h x = HSnap acc -> c_idx x = 0) /\
+  knows h r x /\
+  match c_sub x with
+  | Some sb => match s_status sb with Open => subinv h ob x sb | _ => True end
+  | None => True
+  end.
 
-  Definition cinv (h : hist) (ob : option tbuf) (r : N) (x : client) : Prop :=
-    c_idx x <= h_hi h /\ c_epoch x <= h_epoch h /\
-    (c_idx x = 0 -> meq (c_view x) []) /\
-    (forall acc, c_h x = HSnap acc -> c_idx x = 0) /\
-    knows h r x /\
-    match c_sub x with
-    | Some sb => match s_status sb with Open => subinv h ob x sb | _ => True end
-    | None => True
-    end.
+Definition cacheinv (h : hist) (T : ts) (ob : option tbuf) (sn : snap) : Prop :=
+  buf_live ob (sn_off sn) None /\
+  exists body A B2 D s, sn_items sn = body ++ [IEos s] /\ snapok h T ob [] body (sn_off sn) A B2 D s.
 
-  Definition cacheinv (h : hist) (T : ts) (ob : option tbuf) (sn : snap) : Prop :=
-    buf_live ob (sn_off sn) /\
-    exists body A B2 D s, sn_items sn = body ++ [IEos s] /\ snapok h T ob [] body (sn_off sn) A B2 D s.
+Record ginv (st : state) : Prop := {
+  gi_store_nd : NoDup (keys (st_store st));
+  gi_store : meq (st_store st) (apply (all_evs (st_log st)) (st_base st));
+  gi_incr : incr (map b_idx (st_log st));
+  gi_hi : 1 <= st_hi st;
+  gi_queue : Forall (fun gb => fst gb <= st_epoch st) (st_queue st);
+  gi_hist : exists pub r,
+      st_log st = pub ++ live_queue st /\ 1 <= r <= st_hi st /\
+      Forall (fun b => r < b_idx b <= st_hi st) (st_log st) /\
+      (forall T tb, find_buf T (st_bufs st) = Some tb -> exists X, proj T pub = X ++ tb_items tb) /\
+      (forall c x, find_client c (st_clients st) = Some x ->
+                   cinv (hist_of st) (find_buf (c_ts x) (st_bufs st)) r x);
+  gi_refs : forall T tb, find_buf T (st_bufs st) = Some tb ->
+                         (count_subs T (tb_id tb) (st_clients st) <= tb_refs tb)%nat;
+  gi_ids : (forall T tb, find_buf T (st_bufs st) = Some tb -> tb_id tb < st_nbuf st) /\
+           (forall c x sb, find_client c (st_clients st) = Some x -> c_sub x = Some sb ->
+                           s_buf sb < st_nbuf st);
+  gi_cache : forall T sn, find_snap T (st_cache st) = Some sn ->
+                          cacheinv (hist_of st) T (find_buf T (st_bufs st)) sn;
+  gi_nd : NoDup (map fst (st_clients st))
+}.
 
-  Record ginv (st : state) : Prop := {
-    gi_store_nd : NoDup (keys (st_store st));
-    gi_store : meq (st_store st) (apply (all_evs (st_log st)) (st_base st));
-    gi_logok : log_ok (st_log st);
-    gi_incr : incr (map b_idx (st_log st));
-    gi_hi : 1 <= st_hi st;
-    gi_hist : exists pub r,
-        st_log st = pub ++ st_queue st /\ 1 <= r <= st_hi st /\
-        Forall (fun b => r < b_idx b <= st_hi st) (st_log st) /\
-        (forall T tb, find_buf T (st_bufs st) = Some tb -> tb_old tb = false ->
-                      exists X, proj T pub = X ++ tb_items tb) /\
-        (forall c x, find_client c (st_clients st) = Some x ->
-                     cinv (hist_of st) (find_buf (c_ts x) (st_bufs st)) r x);
-    gi_refs : forall T, match find_buf T (st_bufs st) with
-                        | Some tb => (count_subs T (st_clients st) <= tb_refs tb)%nat
-                        | None => count_subs T (st_clients st) = 0%nat
-                        end;
-    gi_cache : forall T sn, find_snap T (st_cache st) = Some sn ->
-                            cacheinv (hist_of st) T (find_buf T (st_bufs st)) sn;
-    gi_nd : NoDup (map fst (st_clients st))
-  }.
-
-  Lemma ginv_init c : ginv (init c).
-  Proof.
-    constructor; cbn.
-    - constructor.
-    - intros k; reflexivity.
-    - constructor.
-    - constructor.
-    - lia.
-    - exists [], 1. split; [reflexivity|]. split; [lia|]. split; [constructor|].
-      split; intros; discriminate.
-    - intros T; reflexivity.
-    - intros T sn H; discriminate.
-    - constructor.
-  Qed.
-End Inv.
+Lemma ginv_init c : ginv (init c).
+Proof.
+  constructor; cbn.
+  - constructor.
+  - intros k; reflexivity.
+  - constructor.
+  - lia.
+  - constructor.
+  - exists [], 1. split; [reflexivity|]. split; [lia|]. split; [constructor|].
+    split; intros; discriminate.
+  - intros; discriminate.
+  - split; intros; discriminate.
+  - intros T sn H; discriminate.
+  - constructor.
+Qed.
